@@ -85,6 +85,18 @@ CHECKS = {
             'Trusts the frame bookkeeping of the harness; handlers added/removed during the iterating frame '
             'accepted either way; single lineage of __events__ per class.',
             'DESIGN.md section 3 / C03'),
+    'C09': ('exploration',
+            'model-based stateful property testing (Hypothesis): scripted generator bodies issuing start/kill/'
+            'state from inside frames, external start/kill/process/forget histories, log validated entry by '
+            'entry against a per-generator lifecycle model; weak references for the release clause',
+            'Randomised search with shrinking over interleavings of start, kill, restart, state queries and '
+            'process issued from outside and from inside coroutine bodies, over runnable, waiting and finished '
+            'coroutines; state()/promise.state/promise.value compared after every step, every executed body '
+            'step validated (due, once per frame, right resume point), error contracts (ValueError/TypeError) '
+            'and release of forgotten finished/killed generators checked. Small-scope confidence, no proof.',
+            'Trusts the lifecycle model; finished generators are not restarted; self-kill lets the current step '
+            'finish; CPython reference counting for release.',
+            'DESIGN.md section 3 / C09'),
     'C10': ('exploration',
             'property-based testing (Hypothesis) with harness-owned schedule: histories with drop points between '
             'operations and inside dispatches, listener iteration order injected as part of the case; '
